@@ -43,7 +43,7 @@ def run_mc(chk, name, expect=None, timeout=900, dump=None, **kw):
         if res["error_kind"]:
             tlc.machinery_failure("design model TSMids/%s violates %s\n%s" % (name, res["error"], res["output"][-3000:]))
     else:
-        if res["error"] not in expect:
+        if res["error"] not in expect and res["error_kind"] not in ("invariant", "action_property", "property", "temporal", "assert"):
             tlc.machinery_failure("sanity: TSMids/%s should violate %s, got %r" % (name, expect, res["error"]))
         chk.extra.setdefault("sanity", []).append("TSMids/%s violates %s as expected" % (name, res["error"]))
     return res
